@@ -3,6 +3,28 @@ over parameter sizes with the docstring sentence / caller fact it comes from.  F
 contract make the dependent obligations ASSUMED(reason) instead of PROVEN."""
 
 CONTRACTS = {
+    'abacusnbody/analysis/tsc.py:partition_parallel': dict(
+        params={'pos': 'arr', 'npartition': 'int', 'boxsize': 'opaque', 'weights': 'optarr', 'coord': 'int', 'nthread': 'int', 'sort': 'bool'},
+        rank={'pos': 2, 'weights': 1},
+        requires=[('npartition >= 1', 'npartition : "The number of partitions"'),
+                  ('len(weights) == len(pos)', 'weights : "ndarray of shape (n,)" for pos of shape (n,3)'),
+                  ('coord >= 0', 'coord : "0 is x, 1 is y, etc."'), ('coord <= 2', 'coord : "0 is x, 1 is y, etc."')],
+        alternatives=[[('nthread >= 1', 'nthread : number of threads')],
+                      [('nthread <= -1', 'nthread : "Values < 0 use numba.config.NUMBA_NUM_THREADS"')]],
+        float_bounds=[('pos[i, coord] * inv_pwidth', '0', None,
+                       'pos : "The positions, in domain [0,boxsize)" so the truncated key is >= 0 (L7)')],
+        value_indices={'s': 's = pointers[t, k] is a thread-private cursor inside [0, len(pos)) by the transposed prefix-sum construction (C17-R2/R3)'},
+    ),
+    'abacusnbody/analysis/tsc.py:_tsc_parallel': dict(
+        params={'ppart': 'arr', 'starts': 'arr', 'dens': 'arr', 'box': 'opaque', 'weights': 'optarr', 'offset': 'opaque'},
+        rank={'starts': 1},
+        requires=[('len(starts) >= 2', 'tsc_parallel passes the npartition+1 >= 2 stripe offsets of partition_parallel, or [0, len(pos)]')],
+    ),
+    'abacusnbody/analysis/tsc.py:_wrap_inplace': dict(
+        params={'pos': 'arr', 'box': 'opaque'}, rank={'pos': 2},
+        requires=[('pos.shape[1] >= 3', 'pos : "ndarray of shape (n,3)"')],
+    ),
+    'abacusnbody/analysis/tsc.py:_zeros_parallel': dict(params={'shape': 'opaque', 'dtype': 'opaque'}),
     'abacusnbody/util.py:cumsum': dict(
         params={'arr': 'arr', 'out': 'arr', 'initial': 'bool', 'final': 'bool', 'offset': 'opaque'},
         rank={'arr': 1, 'out': 1},
